@@ -211,6 +211,10 @@ def _eval_node(t, a, env):
         name = t.decl().name()
         if not a:
             if name not in env:
+                if name.startswith("nan!"):
+                    return math.nan
+                if name.startswith("posinf!"):
+                    return math.inf
                 raise NumEvalError(f"unassigned variable {name}")
             return env[name]
         if name in _UF_NUM:
